@@ -1459,18 +1459,20 @@ static void _yr_re_fiber_kill_all(
 // some matching. If the fiber reaches a split instruction, the new fiber is
 // also synced.
 //
-static int _yr_re_fiber_sync(
+static int _yr_re_fiber_sync_ex(
     RE_FIBER_LIST* fiber_list,
     RE_FIBER_POOL* fiber_pool,
-    RE_FIBER* fiber_to_sync)
+    RE_FIBER* fiber_to_sync,
+    RE_SPLIT_ID_TYPE* splits_executed,
+    RE_SPLIT_ID_TYPE* splits_executed_count)
 {
-  // A array for keeping track of which split instructions has been already
-  // executed. Each split instruction within a regexp has an associated ID
-  // between 0 and RE_MAX_SPLIT_ID-1. Keeping track of executed splits is
-  // required to avoid infinite loops in regexps like (a*)* or (a|)*
+  // splits_executed is an array for keeping track of which split instructions
+  // has been already executed. Each split instruction within a regexp has an
+  // associated ID between 0 and RE_MAX_SPLIT_ID-1. Keeping track of executed
+  // splits is required to avoid infinite loops in regexps like (a*)* or (a|)*.
+  // The array is shared with the nested calls made for the fibers that leave
+  // a REPEAT_ANY instruction, a regexp like (.?)* loops through them.
 
-  RE_SPLIT_ID_TYPE splits_executed[RE_MAX_SPLIT_ID];
-  RE_SPLIT_ID_TYPE splits_executed_count = 0;
   RE_SPLIT_ID_TYPE split_id, splits_executed_idx;
 
   int split_already_executed;
@@ -1500,7 +1502,7 @@ static int _yr_re_fiber_sync(
       split_id = *(RE_SPLIT_ID_TYPE*) (fiber->ip + 1);
       split_already_executed = false;
 
-      for (splits_executed_idx = 0; splits_executed_idx < splits_executed_count;
+      for (splits_executed_idx = 0; splits_executed_idx < *splits_executed_count;
            splits_executed_idx++)
       {
         if (split_id == splits_executed[splits_executed_idx])
@@ -1541,12 +1543,12 @@ static int _yr_re_fiber_sync(
         // In normal conditions this should never happen. But with compiled
         // rules that has been hand-crafted by a malicious actor this could
         // happen.
-        if (splits_executed_count >= RE_MAX_SPLIT_ID)
+        if (*splits_executed_count >= RE_MAX_SPLIT_ID)
           return ERROR_INTERNAL_FATAL_ERROR;
 #endif
 
-        splits_executed[splits_executed_count] = split_id;
-        splits_executed_count++;
+        splits_executed[*splits_executed_count] = split_id;
+        (*splits_executed_count)++;
       }
 
       break;
@@ -1644,7 +1646,12 @@ static int _yr_re_fiber_sync(
         branch_b->ip += (1 + sizeof(RE_REPEAT_ANY_ARGS));
         branch_b->rc = -1;
 
-        FAIL_ON_ERROR(_yr_re_fiber_sync(fiber_list, fiber_pool, branch_b));
+        FAIL_ON_ERROR(_yr_re_fiber_sync_ex(
+            fiber_list,
+            fiber_pool,
+            branch_b,
+            splits_executed,
+            splits_executed_count));
 
         fiber = next;
       }
@@ -1672,6 +1679,22 @@ static int _yr_re_fiber_sync(
   }
 
   return ERROR_SUCCESS;
+}
+
+static int _yr_re_fiber_sync(
+    RE_FIBER_LIST* fiber_list,
+    RE_FIBER_POOL* fiber_pool,
+    RE_FIBER* fiber_to_sync)
+{
+  RE_SPLIT_ID_TYPE splits_executed[RE_MAX_SPLIT_ID];
+  RE_SPLIT_ID_TYPE splits_executed_count = 0;
+
+  return _yr_re_fiber_sync_ex(
+      fiber_list,
+      fiber_pool,
+      fiber_to_sync,
+      splits_executed,
+      &splits_executed_count);
 }
 
 ////////////////////////////////////////////////////////////////////////////////
